@@ -636,6 +636,13 @@ void run_c10(Judge& j, uint64_t n) {
         if (rng.chance(2, 3)) { Fault f; f.kind = Fault::reset_b2c; f.conn_ordinal = 0; f.at = rng.range(8, 40); sc.faults.push_back(f); }
         if (rng.chance(1, 3)) { Fault f; f.kind = Fault::reset_c2b; f.conn_ordinal = 1; f.at = rng.range(30, 80); sc.faults.push_back(f); }
         sc.end = 90 * SEC;
+        // the configuration belongs to the client, not to one run: stop (cancel / async_disconnect) and run again
+        if (rng.chance(1, 3)) {
+            Action st; st.kind = rng.chance(1, 2) ? Action::cancel : Action::disconnect; st.at = (vt)rng.range(40 * SEC, 60 * SEC); sc.script.push_back(st);
+            Action r2; r2.kind = Action::run; r2.at = st.at + 7 * SEC; sc.script.push_back(r2);
+            Action p2; p2.kind = Action::publish; p2.at = r2.at + 10 * MS; p2.qos = 1; p2.topic = "c2"; p2.payload = "x"; sc.script.push_back(p2);
+            sc.end = r2.at + 60 * SEC;
+        }
         vu::set_case(sc.family + " index=" + std::to_string(i));
         auto ex = execute(sc);
         j.judge(sc, *ex);
@@ -666,6 +673,17 @@ void run_c12(Judge& j, uint64_t n) {
             else { Action b; b.kind = Action::broker_publish; b.at = (vt)rng.range(0, talk_until); b.qos = 0; b.topic = "k"; b.payload = "y"; sc.script.push_back(b); }
         }
         if (rng.chance(1, 3)) { Action p; p.kind = Action::publish; p.at = (vt)rng.range(0, talk_until / 2); p.qos = 1; p.topic = "k1"; p.payload = "z"; sc.script.push_back(p); }
+        // the keep-alive must not depend on what else the CONNACK announced: a small Receive Maximum, with the send window
+        // kept full by slow acknowledgements while PINGREQs fall due
+        if (rng.chance(1, 3)) {
+            int rm = (int)rng.range(1, 3); sc.bcfg.caps.receive_maximum = (uint16_t)rm;
+            if (eff && eff <= 5 && rng.chance(1, 2)) {
+                sc.bcfg.ack_delay_min = unit * 3 / 2; sc.bcfg.ack_delay_max = unit * 5 / 2;
+                for (int q = 0; q < rm + 1; ++q) { Action p; p.kind = Action::publish; p.at = unit / 2 + q * MS; p.qos = (int)rng.range(1, 2); p.topic = "win"; p.payload = "w"; sc.script.push_back(p); }
+            }
+        }
+        if (rng.chance(1, 4)) sc.bcfg.caps.maximum_packet_size = (uint32_t)rng.range(100, 2000);
+        if (rng.chance(1, 4)) sc.bcfg.caps.topic_alias_maximum = (uint16_t)rng.range(0, 10);
         int mode = (int)rng.below(3);   // 0: talks for ever, 1: falls silent, 2: silent then talks again
         if (mode >= 1) {
             sc.bcfg.silent_from = talk_until;
